@@ -82,6 +82,10 @@ CHECKS = {
          "Generated-history search with crash points: the consuming process (loop and all objects) is discarded at any generated point and restarted against the surviving broker state. Exploration only; this code has no executed coverage in the repository suite (its Kafka tests are skipped).",
          "Trusted: harness/fakes/confluent_kafka.py as the broker/client behaviour (watermarks, committed offsets, poll); the reset=latest redelivery baseline in props/c09.py.",
          "DESIGN.md section 4 C09"),
+ "C20": ("Hypothesis-generated scatter()...gather() segments and inputs, run on an in-process Dask cluster with value-dependent task sleeps and, as the reference, locally; differential oracle on sink sequences and RefCounter counts",
+         "Generated-input differential testing of the Dask-backed pipeline against the local one; the cluster schedule is perturbed, not owned. A missing result is reported only when the cluster is observed idle, otherwise the run is inconclusive (exit 2). Exploration only.",
+         "Trusted: the local pipeline as the reference (itself checked by C01-C05); distributed's in-process cluster.",
+         "DESIGN.md section 4 C20"),
 }
 NOT_YET = "check not built yet in this session (the property is decidable with this technique; see DESIGN.md section 4)"
 
